@@ -282,7 +282,16 @@ def run(ctx):
     regen(ctx)
     ctx.do_prove()
     rs = np.random.RandomState(ctx.seed * 1009 + 3)
-    lines, expect = corr_cases(ctx, rs, 6 if ctx.tier == "quick" else 60)
+    try:
+        lines, expect = corr_cases(ctx, rs, 6 if ctx.tier == "quick" else 60)
+    except Exception as e:
+        # the unit-level comparison drives hand-built objects through private methods; when the source no longer allows that
+        # (e.g. _compute_grads reads state that only fit prepares) the tie is broken, and the oracle on REAL fits below is
+        # what searches for a failing input
+        import traceback
+        ctx.corr_break("model:unit-calls", {"source_delta": [f"{f}::{u}" for f, u in ctx.delta]},
+                       {"hand-built objects could not be driven": f"{type(e).__name__}: {e}", "traceback_tail": traceback.format_exc()[-800:]})
+        lines, expect = [], []
     try:
         outs = core.run_driver("Nets", lines)
     except core.DriverBuildError as e:
